@@ -11,6 +11,8 @@ import Rscp.Tie.Crypt
 #print axioms Rscp.Props.C07.receive_no_panic
 #print axioms Rscp.Props.C07.cipher_transparent
 #print axioms Rscp.Props.C07.encrypted_reply_returned
+#print axioms Rscp.Props.C07.receive_enc_no_panic
+#print axioms Rscp.Props.C07.fed_enc_is_prefix
 #print axioms Rscp.Tie.Client.shape_rscp_NewClient
 #print axioms Rscp.Tie.Client.shape_rscp_Client_resetCipher
 #print axioms Rscp.Tie.Client.shape_rscp_Client_send
@@ -34,6 +36,7 @@ import Rscp.Tie.Crypt
 #print axioms Rscp.Tie.Reader.shape_rscp_DataType_newEmpty
 #print axioms Rscp.Tie.Reader.shape_rscp_DataType_IsADataType
 #print axioms Rscp.Tie.Reader.shape_rscp_dereferencePtr
+#print axioms Rscp.Tie.Reader.shape_rscp_var_newEmptyMap
 #print axioms Rscp.Tie.Reader.leaf_readHeader_badMagic_src
 #print axioms Rscp.Tie.Reader.leaf_readHeader_badMagic_args
 #print axioms Rscp.Tie.Reader.leaf_readHeader_badCtrl_src
